@@ -25,12 +25,12 @@ fuzz_target!(|data: &[u8]| {
     let mut h = if p.nodate { khttp::Headers::new_nodate() } else { khttp::Headers::new() };
     for op in &p.ops {
         match op {
-            HOp::Add(n, v) => h.add(n.as_str(), v.as_slice()),
-            HOp::Rep(n, v) => h.replace(n.as_str(), v.as_slice()),
-            HOp::Rm(n) => h.remove(n.as_str()),
-            HOp::Scl(n) => h.set_content_length(*n),
-            HOp::Ste => h.set_transfer_encoding_chunked(),
-            HOp::Scc => h.set_connection_close(),
+            HOp::Add(n, v) => { let _ = h.add(n.as_str(), v.as_slice()); }
+            HOp::Rep(n, v) => { let _ = h.replace(n.as_str(), v.as_slice()); }
+            HOp::Rm(n) => { let _ = h.remove(n.as_str()); }
+            HOp::Scl(n) => { let _ = h.set_content_length(*n); }
+            HOp::Ste => { let _ = h.set_transfer_encoding_chunked(); }
+            HOp::Scc => { let _ = h.set_connection_close(); }
         }
     }
     let status = khttp::Status::owned(p.code, String::from_utf8_lossy(&p.reason).to_string());
